@@ -302,3 +302,47 @@ def glue_keeps_state(O, rep):
                     break
         if n == 0:
             O.inconclusive("vacuous: no returning path of %s" % which)
+
+
+def one_context(O, rep):
+    """The iterator has ONE evaluation context: next evaluates rows against `self.ctx`; handle_io installs the answer
+    in that same `self.ctx` and hands the very same object to the extraction (where virtual signals are evaluated).
+    So variables, device outputs and the generator that `resetRandom` restarts are shared by everything a run evaluates."""
+    from .common import T as _T
+    m = O.mir
+    ctx_path = ".*.%d" % m.fidx("DataRowIterator", "ctx")
+
+    def is_own_ctx(tn):
+        names = ([tuple(tn)] if tn else []) + list(getattr(tn, "chain", []) if tn else [])
+        return any(nm and nm[0] == "arg1" and nm[1] == ctx_path for nm in names)
+    n = 0
+    fn = O.find("::next", file="data_row_iterator.rs")
+    eng = O.engine()
+    eng.keep_events(*KEEP)
+    eng.keep_events(r"handle_io$")
+    for p in O.explore(eng, fn):
+        if p.outcome != "return":
+            continue
+        for ev in p.calls(r"get_row$"):
+            n += 1
+            if not is_own_ctx(ev.tnames[1] if len(ev.tnames) > 1 else None):
+                rep.fail(O, p, "next evaluates the row against a context that is not the iterator's own `ctx`")
+    fn = O.find("::handle_io")
+    eng = O.engine()
+    eng.keep_events(*KEEP)
+    for p in O.explore(eng, fn):
+        if p.outcome != "return":
+            continue
+        eng.focus(p)
+        so = p.calls(r"set_outputs$")
+        ex = p.calls(r"extract_output_values$")
+        for ev in so:
+            n += 1
+            if not is_own_ctx(ev.tnames[0] if ev.tnames else None):
+                rep.fail(O, p, "handle_io installs the answer in a context that is not the iterator's own `ctx`")
+        for ev in ex:
+            n += 1
+            if not so or _T(eng, ev.args[2]) is not _T(eng, so[0].args[0]):
+                rep.fail(O, p, "handle_io hands extract_output_values a context that is not the one the answer was installed in")
+    if n == 0:
+        O.inconclusive("vacuous: none of the context-taking calls was seen")
